@@ -27,7 +27,9 @@ RULE = ("ADMGs with 2-7 nodes (generator weighted towards sparse directed chains
         "and irrelevant nodes, several districts, treatments that are not ancestors of outcomes) x disjoint non-empty "
         "X, Y (1-3 treatments, 1-2 outcomes) through identify(Identification) and identify_outcomes; corpus = every "
         "graph of y0.examples with <= 8 nodes and the witnesses of F1/F3; a malformed stream (overlapping X and Y, nodes "
-        "outside the graph, empty Y, empty X) for the error taxonomy. A case is non-trivial when the query is valid "
+        "outside the graph, empty Y, empty X) for the error taxonomy; structured nested napkins with 2-3 levels, the same with one "
+        "extra bidirected edge (refusal after nested line 7s), line 4 into several multi-node districts, and |X| <= 4, |Y| <= 4 on "
+        "6-8 nodes (gap review round 5). A case is non-trivial when the query is valid "
         "and the run reached at least one of ID's lines 4-7.")
 ASSUMPTIONS = [
     "argument FORMS (harness/forms.py, harness/oracles/id_run.py id_slots; chosen deterministically per case, stored in the case, tagged form_*): treatments / outcomes as set / frozenset / list / tuple / dict keys / generator / iterator / map or a bare Variable for a one-element set; the Identification made by Identification(query=Query(..), graph=..) by keyword or by position, by from_parts, or by from_expression from P[X](Y) and P(Y @ X) (valid queries only); identify_outcomes positional or by keyword; 'no conditions' omitted / None / an empty set or list -- for identify_outcomes an EMPTY collection is not None and routes the query through IDC with nothing to condition on (estimand E / sum_Y E), which the model side mirrors with identify_outcomes_c and an empty condition list; the graph through every public constructor. 'Caller's objects unchanged' covers every re-iterable argument collection (one-shot iterables are consumed by definition)",
@@ -98,6 +100,23 @@ def _cases(rng: random.Random, tier: str):
         if tier == "thorough" and len(nodes) == 6 and rng.random() < 0.12:
             c["hedge_limit"] = 6   # brute-force hedge search on a sample of the 6-node graphs (exponential)
         out.append(c)
+    # structured (gap review round 5; appended so that the earlier cases of a seed are unchanged): nested napkins with 2-3
+    # levels (line 7 two / three times), the same with one extra bidirected edge (refusal only after nested line 7s:
+    # 7 -> 7 -> 5), line 4 into several multi-node districts with outcomes in 2-3 districts, and |X| <= 4, |Y| <= 4 on
+    # graphs with 6-8 nodes (rand_query stops at |X| = 3, |Y| = 2)
+    ns = 300 if tier == "quick" else 2000
+    for k in range(ns):
+        t = k % 6
+        if t < 3:
+            g, X, Y, kind = R.napkin_tower(rng, levels=3 if t else 2, refuse=bool(k % 2))
+        else:
+            g, X, Y, kind = R.multi_district_family(rng, (5, 6, 7)[t - 3])
+        out.append({"g": g, "X": X, "Y": Y, "via": "identify" if k % 5 else "identify_outcomes", "label": "structured:" + kind})
+    nb = 1200 if tier == "quick" else 8000
+    for k in range(nb):
+        g = R.gen_graph(rng, 6, 8)
+        q = R.big_query(rng, G.all_nodes(g))
+        out.append({"g": g, "X": q[0], "Y": q[1], "via": "identify" if k % 5 else "identify_outcomes", "label": "bigquery"})
     return out
 
 
